@@ -20,14 +20,27 @@ pub struct PanicRec {
     pub func: String,
 }
 
+/// Root of the source tree under test as it appears in panic locations ("/repo/" unless the driver was pointed at a
+/// scratch worktree with LVERIF_REPO, in which case it passes LVERIF_REPO_ROOT to the shard processes).
+pub fn repo_root() -> &'static str {
+    static ROOT: std::sync::OnceLock<String> = std::sync::OnceLock::new();
+    ROOT.get_or_init(|| {
+        let mut r = std::env::var("LVERIF_REPO_ROOT").unwrap_or_else(|_| "/repo/".to_string());
+        if !r.ends_with('/') {
+            r.push('/');
+        }
+        r
+    })
+}
+
 impl PanicRec {
     pub fn in_repo(&self) -> bool {
-        self.file.starts_with("/repo/")
+        self.file.starts_with(repo_root())
     }
     /// Identity of the panic site used in signatures: file + fingerprint of the source line (not the line number, which
     /// moves with every unrelated edit above it).
     pub fn site(&self) -> String {
-        let f = self.file.trim_start_matches("/repo/");
+        let f = self.file.trim_start_matches(repo_root());
         if self.func.is_empty() {
             format!("{}:{}", f, self.line)
         } else {
@@ -35,7 +48,7 @@ impl PanicRec {
         }
     }
     pub fn site_line(&self) -> String {
-        format!("{}:{}", self.file.trim_start_matches("/repo/"), self.line)
+        format!("{}:{}", self.file.trim_start_matches(repo_root()), self.line)
     }
     /// message with numbers, quoted strings and addresses removed
     pub fn norm_msg(&self) -> String {
@@ -105,7 +118,7 @@ static FUNC_CACHE: Mutex<Vec<((String, u32), String)>> = Mutex::new(Vec::new());
 /// Content address of a panic site: FNV-1a of the trimmed source line the panic location points at. It names one call
 /// site, does not move when unrelated lines are added above it, and does not depend on optimisation level or inlining.
 fn enclosing_function(file: &str, line: u32) -> String {
-    if !file.starts_with("/repo/") {
+    if !file.starts_with(repo_root()) {
         return String::new();
     }
     if let Ok(c) = FUNC_CACHE.lock() {
@@ -207,9 +220,19 @@ pub fn thread_count() -> usize {
 #[derive(Clone, Default)]
 pub struct OpCell(pub Arc<Mutex<String>>);
 
+/// Bumped whenever the running case starts or finishes a step (a database call, a child process). The wall-clock watchdog
+/// measures the time since the last step, not since the start of the case: a long case on a loaded machine keeps stepping,
+/// a call that never returns does not.
+static STEPS: AtomicU64 = AtomicU64::new(0);
+
+pub fn heartbeat() {
+    STEPS.fetch_add(1, Ordering::SeqCst);
+}
+
 impl OpCell {
     pub fn set(&self, s: &str) {
         *self.0.lock().unwrap() = s.to_string();
+        heartbeat();
     }
     pub fn get(&self) -> String {
         self.0.lock().unwrap().clone()
@@ -246,6 +269,7 @@ where
         .expect("spawn case thread");
 
     let start = Instant::now();
+    let mut last_step = (STEPS.load(Ordering::SeqCst), Instant::now());
     let mut last_ticks = process_cpu_ticks();
     let mut idle_samples = 0;
     let mut result: Option<CaseOut> = None;
@@ -272,7 +296,11 @@ where
                     hung = true;
                     break;
                 }
-                if start.elapsed() > watchdog {
+                let steps = STEPS.load(Ordering::SeqCst);
+                if steps != last_step.0 {
+                    last_step = (steps, Instant::now());
+                }
+                if last_step.1.elapsed() > watchdog {
                     watchdog_fired = true;
                     break;
                 }
